@@ -1034,6 +1034,9 @@ var _ = late(func() {
 					continue
 				}
 				pkg := fn.Pkg
+				// t.locked(func() { ...; t.schedule() }) / t.locked(t.schedule): the bracket helper's parameter stands for
+				// what this caller passes
+				unbind := bindFuncParams(fn)
 				pf := &PF{N: 2, InScope: func(f *ssa.Function) bool {
 					return rootFn(origin(f)).Pkg == pkg && f.Blocks != nil && origin(f) != fn && origin(f) != sch
 				}}
@@ -1053,6 +1056,7 @@ var _ = late(func() {
 				if n == 0 {
 					r.undecided(name+"|returns", fn.Pos(), "no return found")
 				}
+				unbind()
 			}
 		}})
 })
